@@ -1,5 +1,154 @@
+import OpusModel.Layout
+import OpusModel.Matrix
 import Driver.Util
-/- Suite stub — replaced by the owner of this suite. -/
+/- Suite `layout` (C10): channel layouts, surround / ambisonics / projection construction,
+   multistream packet validation, decode routing, mapping-matrix multiplies. -/
 namespace Driver.SuiteLayout
-def handle (_ : List String) : String := "bad-op"
+open Opus Opus.Layout Opus.Matrix Driver
+
+def layoutStr (l : ChannelLayout) : String :=
+  s!"{l.nbChannels}/{l.nbStreams}/{l.nbCoupled}/{natList l.mapping}"
+
+def surroundStr (r : Surround × MSEncoder) : String :=
+  s!"OK streams={r.1.streams} coupled={r.1.coupled} mapping={natList r.1.mapping} type={r.2.mappingType.code} lfe={r.2.lfeStream} st={layoutStr r.2.layout}"
+
+def srcStr : Src → String
+  | .left s => s!"L{s}" | .right s => s!"R{s}" | .mono s => s!"M{s}" | .zero => "Z"
+
+def callStr (c : Call) : String := s!"{c.chan}:{srcStr c.src}:{c.frameSize}"
+
+def retStr (r : Int) : String :=
+  if r ≥ 0 then toString r
+  else if r = -1 then "BAD_ARG" else if r = -2 then "BUFFER_TOO_SMALL" else if r = -3 then "INTERNAL_ERROR"
+  else if r = -4 then "INVALID_PACKET" else if r = -5 then "UNIMPLEMENTED" else if r = -6 then "INVALID_STATE"
+  else if r = -7 then "ALLOC_FAIL" else s!"ERR{r}"
+
+def listStr (l : List String) : String := if l.isEmpty then "-" else ",".intercalate l
+
+/-- `r:o,r:o,…` (or `-`). -/
+def parseRets (s : String) : Option (List StreamRet) :=
+  if s = "-" then some []
+  else (s.splitOn ",").mapM fun t =>
+    match t.splitOn ":" with
+    | [a, b] => match a.toInt?, b.toInt? with
+      | some r, some o => some { ret := r, packetOffset := o }
+      | _, _ => none
+    | _ => none
+
+def pickMatrix (o : Nat) (which : String) : Option MappingMatrix :=
+  if which = "mix" then mixing o else if which = "demix" then demixing o else none
+
+def parseBitsList (s : String) : Option (List (Int × Int)) :=
+  if s = "-" then some []
+  else (s.splitOn ",").mapM fun t => match t.toNat? with
+    | some b => f32Decode b
+    | none => none
+
+def handle : List String → String
+  | ["surround", mode, fsok, family, channels] =>
+    match parseNat fsok, parseInt family, parseInt channels with
+    | some fsok, some family, some channels =>
+      if mode = "create" then resStr surroundStr (surroundCreate (fsok != 0) channels family)
+      else if mode = "init" then resStr surroundStr (surroundInit (fsok != 0) channels family)
+      else "bad-op"
+    | _, _, _ => "bad-op"
+  | ["proj", mode, fsok, family, channels] =>
+    match parseNat fsok, parseInt family, parseInt channels with
+    | some fsok, some family, some channels =>
+      let r := if mode = "create" then some (projectionCreate builtinDims (fsok != 0) channels family)
+               else if mode = "init" then some (projectionInit builtinDims (fsok != 0) channels family)
+               else none
+      match r with
+      | none => "bad-op"
+      | some r =>
+        resStr (fun (x : Nat × Nat × Nat × MSEncoder) =>
+          let (streams, coupled, o, e) := x
+          match mixing o, demixing o with
+          | some m, some d =>
+            let dm := exportDemixing d (streams + coupled) e.layout.nbChannels
+            s!"OK streams={streams} coupled={coupled} st={layoutStr e.layout} mix={m.rows}x{m.cols}:{m.gain} demix={d.rows}x{d.cols}:{d.gain} dm={resStr toHex dm}"
+          | _, _ => "MODEL-NO-MATRIX") r
+    | _, _, _ => "bad-op"
+  | ["decinit", mode, fsok, channels, streams, coupled, hex] =>
+    match parseNat fsok, parseInt channels, parseInt streams, parseInt coupled, parseHex hex with
+    | some fsok, some ch, some st, some co, some m =>
+      if mode = "create" then resStr (fun l => s!"OK st={layoutStr l}") (decoderCreate (fsok != 0) ch st co m)
+      else if mode = "init" then resStr (fun l => s!"OK st={layoutStr l}") (decoderInit (fsok != 0) ch st co m)
+      else "bad-op"
+    | _, _, _, _, _ => "bad-op"
+  | ["encinit", mode, fsok, channels, streams, coupled, hex] =>
+    match parseNat fsok, parseInt channels, parseInt streams, parseInt coupled, parseHex hex with
+    | some fsok, some ch, some st, some co, some m =>
+      let f := fun (e : MSEncoder) => s!"OK st={layoutStr e.layout} type={e.mappingType.code} lfe={e.lfeStream}"
+      if mode = "create" then resStr f (encoderCreate (fsok != 0) ch st co m)
+      else if mode = "init" then resStr f (encoderInit (fsok != 0) ch st co m)
+      else "bad-op"
+    | _, _, _, _, _ => "bad-op"
+  | ["getchan", kind, channels, coupled, hex, stream, prev] =>
+    match parseNat channels, parseNat coupled, parseHex hex, parseNat stream, parseInt prev with
+    | some ch, some co, some m, some s, some prev =>
+      let l : ChannelLayout := { nbChannels := ch, nbStreams := 0, nbCoupled := co, mapping := m }
+      if kind = "l" then s!"c={getLeftChannel l s prev}"
+      else if kind = "r" then s!"c={getRightChannel l s prev}"
+      else if kind = "m" then s!"c={getMonoChannel l s prev}"
+      else "bad-op"
+    | _, _, _, _, _ => "bad-op"
+  | ["vlayout", channels, streams, coupled, hex] =>
+    match parseNat channels, parseNat streams, parseNat coupled, parseHex hex with
+    | some ch, some st, some co, some m =>
+      let l : ChannelLayout := { nbChannels := ch, nbStreams := st, nbCoupled := co, mapping := m }
+      s!"layout={if validateLayout l then 1 else 0} enc={if validateEncoderLayout l then 1 else 0}"
+    | _, _, _, _ => "bad-op"
+  | ["msvalidate", nbStreams, fs, hex] =>
+    match parseNat nbStreams, parseNat fs, parseHex hex with
+    | some n, some fs, some bs => resStr (fun k => s!"n={k}") (msPacketValidate bs n fs)
+    | _, _, _ => "bad-op"
+  | ["route", channels, streams, coupled, hex, fs, frameSize, len, data, rets] =>
+    match parseNat channels, parseNat streams, parseNat coupled, parseHex hex, parseNat fs,
+          parseInt frameSize, parseInt len, parseHex data, parseRets rets with
+    | some ch, some st, some co, some m, some fs, some frameSize, some len, some bs, some rets =>
+      let l : ChannelLayout := { nbChannels := ch, nbStreams := st, nbCoupled := co, mapping := m }
+      resStr (fun (r : Routed) => s!"ret={retStr r.ret} calls={listStr (r.calls.map callStr)}")
+        (decodeNative l fs frameSize len (msPacketValidate bs st fs) rets)
+    | _, _, _, _, _, _, _, _, _ => "bad-op"
+  | ["isqrt", n] =>
+    match parseNat n with
+    | some n => if n = 0 then "bad-op" else s!"r={isqrt32 n}"
+    | none => "bad-op"
+  | ["ambi", channels] =>
+    match parseInt channels with
+    | some ch => match validateAmbisonics ch with
+      | some (s, c) => s!"OK {s} {c}"
+      | none => "REJECT"
+    | none => "bad-op"
+  | ["mixin", o, which, inputRows, outputRow, outputRows, frameSize, ints] =>
+    match parseNat o, parseNat inputRows, parseNat outputRow, parseNat outputRows, parseNat frameSize, parseIntList ints with
+    | some o, some ir, some orow, some ors, some n, some input =>
+      match pickMatrix o which with
+      | none => "bad-op"
+      | some m =>
+        resStr (fun (r : InShort) =>
+          if r.exact then "OK " ++ listStr (r.sums.map fun s => toString (f32Bits s (-30))) else "INEXACT")
+          (multiplyChannelInShort m input ir orow ors n)
+    | _, _, _, _, _, _ => "bad-op"
+  | ["mixout", o, which, inputRow, inputRows, outputRows, frameSize, bits, outInit] =>
+    match parseNat o, parseNat inputRow, parseNat inputRows, parseNat outputRows, parseNat frameSize,
+          parseBitsList bits, parseIntList outInit with
+    | some o, some irow, some irs, some ors, some n, some input, some out0 =>
+      match pickMatrix o which with
+      | none => "bad-op"
+      | some m => resStr (fun out => "OK " ++ listStr (out.map toString)) (multiplyChannelOutShort m input irow irs out0 ors n)
+    | _, _, _, _, _, _, _ => "bad-op"
+  | ["product", o, ch, j] =>
+    -- column j of P = D·M (restricted to ch channels), as integers
+    match parseNat o, parseNat ch, parseNat j with
+    | some o, some ch, some j =>
+      match mixing o, demixing o with
+      | some m, some d => match (productCols d m ch ch)[j]? with
+        | some col => "OK " ++ intList col
+        | none => "bad-op"
+      | _, _ => "bad-op"
+    | _, _, _ => "bad-op"
+  | _ => "bad-op"
+
 end Driver.SuiteLayout
